@@ -202,7 +202,8 @@ BaseOp(op, a, b, rx) == CASE op = "is"          -> a = b
 CondTrue(cd, c) == LET a == Replace(Flat(cd.a), c)
                        b == Replace(Flat(cd.b), c)        \* (not expanded for match; b is empty there)
                    IN BaseOp(cd.op, a, b, cd.rx) # cd.neg       \* "not_" prefix negates
-\* IfMatcher.Match: And() / Or() over the list
+\* IfMatcher.Match: And() / Or() over the list.  (`if_op or` without any `if` is FALSE for every request - Or() over
+\* an empty list; a redir / rewrite block written that way never acts.  Observed on the code, not in a pool line.)
 IfMatch(conds, isOr, c) == IF isOr THEN \E i \in 1..Len(conds) : CondTrue(conds[i], c)
                            ELSE \A i \in 1..Len(conds) : CondTrue(conds[i], c)
 
